@@ -364,6 +364,23 @@ pub fn run(ctx: &Ctx) {
             elems.push(f);
             judge(&[elems], &[Layout { foreign_desc: true, indent: c[3] == 0, ..Layout::default() }], &format!("foreign DESC elements, shape {:?}", c), loc);
         }));
+        // decoy attributes: namespaced attributes whose names end in ID / ID-REF / BASE-DATA-TYPE in front of the real ones
+        {
+            let (refs, defs) = vocabulary();
+            let n = refs.len();
+            let sp = Space::new(&[n, 2, 2]);
+            let s2 = sp.clone();
+            let (refs, defs) = (&refs, &defs);
+            ctx.run_family(Family::new("c11.decoy_attributes", sp.size(), format!("every entry of the {}-entry signal vocabulary in a PDU of a two-frame model rendered with decoy attributes (ext:OID, x:UUID before ID; ext:KID-REF before ID-REF; ext:ALT-BASE-DATA-TYPE before ho:BASE-DATA-TYPE) x ref style x indentation: the model is the one of the real attributes", n), move |i, loc| {
+                let c = s2.coords(i);
+                let mut elems: Vec<Elem> = defs.to_vec();
+                elems.push(Elem::Pdu(pdu("P1", Desc::Text("d".into()), &[(&refs[c[0]], 1), ("S_UINT8", 0)])));
+                elems.push(Elem::Pdu(pdu("P2", Desc::Absent, &[("S_BOOL", 0)])));
+                elems.push(Elem::Frame(frame("ID_20", "twenty", &[("P2", 1), ("P1", 0)], Some(manuf(Some("APP1"), Some("CTX1"), None, None)))));
+                elems.push(Elem::Frame(frame("ID_21", "twentyone", &[("P1", 0)], None)));
+                judge(&[elems], &[Layout { foreign_attrs: true, refs_open_close: c[1] == 1, indent: c[2] == 0, ..Layout::default() }], &format!("decoy attributes, signal ref {}", refs[c[0]]), loc);
+            }));
+        }
         let counts: Vec<usize> = vec![2, 20, 21, 32, 33, 48, 100, 300];
         let sp = Space::new(&[counts.len(), 4, 2]);
         let s2 = sp.clone();
